@@ -295,10 +295,10 @@ Lemma shape_prefix : forall r c x, shape r (c ++ x) -> shape r c.
 Proof.
   intros r c x (ds & ns & E & Hds & Hns & Hr). revert c E Hr.
   induction Hds as [|d ds Hd Hds IH]; intros c E Hr.
-  - cbn [app] in E. exists [], c. repeat split; try constructor; [|auto].
+  - cbn [app] in E. exists [], c. split; [reflexivity|]. split; [constructor|]. split; [|auto].
     subst ns. apply Forall_app in Hns. tauto.
   - destruct c as [|y c'].
-    + exists [], []. repeat split; constructor.
+    + exists [], []. split; [reflexivity|]. split; [constructor|]. split; [constructor|reflexivity].
     + cbn [app] in E. injection E as -> E.
       assert (Hr' : r = true -> ds = []) by (intros Hq; specialize (Hr Hq); discriminate).
       destruct r; [specialize (Hr eq_refl); discriminate|].
@@ -323,7 +323,7 @@ Proof.
   intros r l (ds & ns & -> & Hds & Hns & Hr). rewrite fold_left_app.
   destruct r.
   - rewrite (Hr eq_refl). cbn [fold_left app]. rewrite fold_push_nodd by assumption. now rewrite app_nil_r.
-  - rewrite fold_push_dd by (try assumption; constructor). rewrite fold_push_nodd by assumption.
+  - rewrite (fold_push_dd ds []) by (try assumption; constructor). rewrite fold_push_nodd by assumption.
     now rewrite rev_app_distr, app_nil_r.
 Qed.
 
